@@ -148,6 +148,15 @@ func c02MakeList(c *core.Ctx) *c02List {
 			for j := 0; j < k; j++ {
 				ns = append(ns, names[c.Rng.Intn(len(names))])
 			}
+			if c.Rng.Intn(8) == 0 {
+				// An entry written with capitals names that spelling (a host
+				// rule matches its names as written); queries are lower-case.
+				j := c.Rng.Intn(len(ns))
+				if up := strings.ToUpper(ns[j][:1]) + ns[j][1:]; up != ns[j] {
+					ns[j] = up
+					c.Event("hosts_entries_written_with_capitals", 1)
+				}
+			}
 			t := ip + " " + strings.Join(ns, []string{" ", "\t", "  "}[c.Rng.Intn(3)])
 			if c.Rng.Intn(3) == 0 {
 				// Trailing comments as hosts files have them, also quoting
@@ -399,7 +408,7 @@ func c02Run(c *core.Ctx, idx int) {
 			var ls []filterlist.RuleList
 			for i, content := range contents {
 				fn := filepath.Join(dir, "list"+strconv.Itoa(i)+".txt")
-				if os.WriteFile(fn, []byte(content), 0o644) != nil {
+				if os.WriteFile(fn, []byte(util.ChopEOL(content)), 0o644) != nil {
 					break
 				}
 				fl, ferr := filterlist.NewFileRuleList(i, fn, ignoreCosmetic)
